@@ -342,6 +342,9 @@ pub struct Cfg {
     /// after the run: also take Checker::report (WriteReporter) and discovery_classification
     #[serde(default)]
     pub report: bool,
+    /// wait for the run with Checker::join_and_report instead of joining the handles
+    #[serde(default)]
+    pub join_and_report: bool,
 }
 
 pub fn finish_of(f: &Finish) -> HasDiscoveries {
@@ -461,10 +464,39 @@ struct Obs {
 
 fn observe<C>(mut c: C, cfg: &Cfg, model: &TableModel) -> Obs
 where
-    C: Checker<TableModel> + Send + 'static,
+    C: Checker<TableModel> + Send + Sync + 'static,
 {
     let t0 = Instant::now();
     let watchdog = Duration::from_millis(if cfg.watchdog_ms > 0 { cfg.watchdog_ms } else { 20_000 });
+    if cfg.join_and_report && cfg.strategy != "ondemand" {
+        // the other way of waiting for a check: join_and_report on a thread of its own, under the watchdog
+        let t = std::thread::spawn(move || {
+            catch_unwind(AssertUnwindSafe(move || {
+                let mut buf: Vec<u8> = Vec::new();
+                c.join_and_report(&mut stateright::report::WriteReporter::new(&mut buf))
+            }))
+        });
+        while !t.is_finished() && t0.elapsed() <= watchdog {
+            std::thread::sleep(Duration::from_micros(200));
+        }
+        let blank = |joined: bool, join_panicked: bool, wall_ms: u128| Obs {
+            joined, join_panicked, is_done: false, unique: 0, total: 0, max_depth: 0, discoveries: vec![], disc_panicked: false,
+            assert_panicked: false, report: json!({"present": false}), handles_left: if joined { 0 } else { 1 }, wall_ms,
+        };
+        if !t.is_finished() {
+            return blank(false, false, t0.elapsed().as_millis()); // the waiting thread is leaked
+        }
+        let wall_ms = t0.elapsed().as_millis();
+        return match t.join() {
+            Ok(Ok(c2)) => {
+                let mut o = observe_finished(c2, cfg, model, true, false, 0, wall_ms);
+                o.wall_ms = wall_ms;
+                o
+            }
+            // the panic of a checker thread re-raised by join_and_report
+            _ => blank(true, true, wall_ms),
+        };
+    }
     let handles = c.handles();
     if cfg.strategy == "ondemand" {
         for r in &cfg.requests {
@@ -512,6 +544,13 @@ where
         }
     }
     let wall_ms = t0.elapsed().as_millis();
+    observe_finished(c, cfg, model, joined, join_panicked, left, wall_ms)
+}
+
+fn observe_finished<C>(c: C, cfg: &Cfg, model: &TableModel, joined: bool, join_panicked: bool, left: usize, wall_ms: u128) -> Obs
+where
+    C: Checker<TableModel> + Send + Sync + 'static,
+{
     let is_done = c.is_done();
     let unique = c.unique_state_count();
     let total = c.state_count();
